@@ -22,6 +22,8 @@ Section Proofs.
   Notation cut := (cut A).
   Notation evaluate := (evaluate A eqb).
   Notation run_prefix := (run_prefix A eqb).
+  Notation execute := (execute A eqb).
+  Notation execute_streamed := (execute_streamed A eqb).
   Notation nofurther_sound := (nofurther_sound A).
   Notation complete := (complete A eqb).
   Notation nodupb := (nodupb A eqb).
@@ -401,6 +403,71 @@ Section Proofs.
     intros P check k cands limit arrival Hchk Hnf. unfold ListObjects.run_prefix. split.
     - apply firstn_NoDup. apply lo_nodup.
     - intros o Hin. apply firstn_In in Hin. eapply lo_sound; eassumption.
+  Qed.
+
+  (* ---- Execute (unary) with its error handling ---- *)
+  Theorem execute_sound : forall (P check : A -> bool) cands limit arrival err_after l,
+    (forall o, check o = true -> P o = true) ->
+    nofurther_sound P cands = true ->
+    execute cands check limit arrival err_after = ListObjects.Objects A l ->
+    NoDup l /\ forall o, In o l -> P o = true.
+  Proof.
+    intros P check cands limit arrival err_after l Hchk Hnf He.
+    unfold ListObjects.execute in He. destruct err_after as [k|].
+    - destruct (Nat.ltb _ limit); [discriminate|]. inversion He; subst.
+      apply lo_deadline_prefix_sound; assumption.
+    - inversion He; subst. split; [apply lo_nodup | apply lo_sound; assumption].
+  Qed.
+
+  (* completeness of a successful unary response that the limit did not cut — holds when no
+     evaluation error occurred or a limit is configured (the _partial statement: the hypothesis
+     [err_after = None \/ 0 < limit] excludes exactly the trigger of limit0_error_swallowed) *)
+  Theorem execute_complete_partial : forall (P check : A -> bool) univ cands limit arrival err_after l,
+    err_after = None \/ 0 < limit ->
+    (forall o, P o = true -> check o = true) ->
+    complete P univ cands = true ->
+    execute cands check limit arrival err_after = ListObjects.Objects A l ->
+    limit = 0 \/ length l < limit ->
+    forall o, In o univ -> P o = true -> In o l.
+  Proof.
+    intros P check univ cands limit arrival err_after l Htrig Hchk Hc He Hcut o Hu HP.
+    unfold ListObjects.execute in He. destruct err_after as [k|].
+    - destruct Htrig as [Hn | Hpos]; [discriminate|].
+      destruct (Nat.ltb (length (run_prefix k cands check limit arrival)) limit) eqn:Hlt; [discriminate|].
+      inversion He; subst l. apply Nat.ltb_ge in Hlt. lia.
+    - inversion He; subst l.
+      assert (Hatt : In o (attempts check cands)).
+      { eapply attempts_complete; [exact Hchk | | exact HP].
+        rewrite complete_spec in Hc. apply Hc; assumption. }
+      unfold ListObjects.evaluate in *. unfold ListObjects.cut in *. destruct limit as [|n].
+      + apply arrange_In. exact Hatt.
+      + destruct Hcut as [H0 | Hlen]; [discriminate|].
+        rewrite firstn_length, arrange_length in Hlen.
+        rewrite firstn_all2; [apply arrange_In; exact Hatt | rewrite arrange_length; lia].
+  Qed.
+
+  Theorem execute_streamed_sound : forall (P check : A -> bool) cands arrival err_after,
+    (forall o, check o = true -> P o = true) ->
+    nofurther_sound P cands = true ->
+    NoDup (fst (execute_streamed cands check arrival err_after)) /\
+    forall o, In o (fst (execute_streamed cands check arrival err_after)) -> P o = true.
+  Proof.
+    intros P check cands arrival err_after Hchk Hnf. unfold ListObjects.execute_streamed.
+    destruct err_after as [k|]; cbn [fst].
+    - apply lo_deadline_prefix_sound; assumption.
+    - split; [apply (lo_nodup check cands 0 arrival) | apply (lo_sound P check cands 0 arrival); assumption].
+  Qed.
+
+  (* a streamed call that did not fail is complete: the streamed variant reports every error *)
+  Theorem execute_streamed_complete : forall (P check : A -> bool) univ cands arrival err_after,
+    (forall o, P o = true -> check o = true) ->
+    complete P univ cands = true ->
+    snd (execute_streamed cands check arrival err_after) = false ->
+    forall o, In o univ -> P o = true -> In o (fst (execute_streamed cands check arrival err_after)).
+  Proof.
+    intros P check univ cands arrival err_after Hchk Hc Hok o Hu HP.
+    unfold ListObjects.execute_streamed in *. destruct err_after as [k|]; cbn [fst snd] in *; [discriminate|].
+    eapply lo_complete; eassumption.
   Qed.
 
   (* the stream-level duplicate test used by the oracle is exact *)
